@@ -23,7 +23,9 @@ pub struct C08;
 #[derive(Clone, Debug)]
 enum Unit {
     Serial { v: u8, session: u16, serial: u32 },
-    Reset { v: u8 },
+    /// `zero` is the header field RFC 8210 calls "zero": senders must set it
+    /// to zero, receivers must ignore it (section 5).
+    Reset { v: u8, zero: u16 },
     /// An erroneous unit; always last.
     Bad { what: &'static str, bytes: Vec<u8> },
 }
@@ -34,7 +36,11 @@ impl Unit {
             Unit::Serial { v, session, serial } => {
                 WirePdu::SerialQuery { v: *v, session: *session, serial: *serial }.encode()
             }
-            Unit::Reset { v } => WirePdu::ResetQuery { v: *v }.encode(),
+            Unit::Reset { v, zero } => {
+                let mut b = WirePdu::ResetQuery { v: *v }.encode();
+                b[2..4].copy_from_slice(&zero.to_be_bytes());
+                b
+            }
             Unit::Bad { bytes, .. } => bytes.clone(),
         }
     }
@@ -357,6 +363,7 @@ const A_SPURIOUS: usize = 6;
 const A_SENDER_GONE: usize = 7;
 const A_CLIENT_EOF: usize = 8;
 const A_TOGGLE_READY: usize = 9;
+const A_WAIT: usize = 10;
 
 impl C08 {
     fn gen_script(t: &mut Tape, src: &VersionedSource, cfg: &Cfg, kind: RunKind, tier: Tier) -> Vec<Unit> {
@@ -370,10 +377,10 @@ impl C08 {
         };
         for _ in 0..n {
             let u = match kind {
-                RunKind::Sweep(i) if (i / 39) % 2 == 0 => Unit::Reset { v },
+                RunKind::Sweep(i) if (i / 39) % 2 == 0 => Unit::Reset { v, zero: 0 },
                 RunKind::Sweep(_) => Unit::Serial { v, session: cur.0, serial: cur.1 },
                 RunKind::Random => match t.choose(5) {
-                    0 => Unit::Reset { v },
+                    0 => Unit::Reset { v, zero: if t.chance(1, 4) { *t.pick(&[1u16, 0x100, 0xffff, 0x0a0b]) } else { 0 } },
                     1 => Unit::Serial { v, session: cur.0, serial: cur.1 },
                     2 => Unit::Serial { v, session: cur.0, serial: cur.1.wrapping_sub(1 + t.choose(3) as u32) },
                     3 => Unit::Serial { v, session: cur.0.wrapping_add(1 + t.choose(5) as u16), serial: cur.1 },
@@ -442,6 +449,7 @@ impl C08 {
         counters: &mut Counters,
         out: &mut RunOut,
     ) -> Result<(), Violation> {
+        let run_start = tokio::time::Instant::now();
         // ---- configuration (swarm) -------------------------------------
         let (cfg, uni, init_set, window, session, serial, first_version_too_new) = {
             let mut t = ctx.tape.lock().unwrap();
@@ -456,6 +464,10 @@ impl C08 {
                 eof_at_end: t.chance(1, 2),
             };
             let uni = Universe::gen(&mut t);
+            let mut cfg = cfg;
+            if uni.has_oversized() && cfg.out_cap < 64 {
+                cfg.out_cap = 64;
+            }
             let set = uni.random_set(&mut t);
             let window = t.choose(4) as usize;
             let session = t.bits(16) as u16;
@@ -582,9 +594,9 @@ impl C08 {
         // ---- schedule ------------------------------------------------------
         let mut sent = 0usize;
         let mut partial_header_notifies = 0u64;
-        let weights: [u64; 10] = match kind {
+        let weights: [u64; 11] = match kind {
             // The sweep drives the grid itself (below).
-            RunKind::Sweep(_) => [1, 0, 0, 0, 0, 0, 0, 0, 0, 0],
+            RunKind::Sweep(_) => [1, 0, 0, 0, 0, 0, 0, 0, 0, 0, 0],
             RunKind::Random => [
                 1,
                 6,
@@ -596,6 +608,7 @@ impl C08 {
                 if ctx.chance(1, 6) { 1 } else { 0 },
                 if ctx.chance(1, 5) { 1 } else { 0 },
                 if cfg.dynamic && ctx.chance(1, 3) { 1 } else { 0 },
+                if ctx.chance(1, 3) { 1 } else { 0 },
             ],
         };
         let mut sender_gone = false;
@@ -623,6 +636,13 @@ impl C08 {
             }
             for _ in 0..=extra_yields {
                 tokio::task::yield_now().await;
+            }
+            if (i / 702) % 2 == 1 {
+                // second half of the grid: 45 simulated seconds pass after
+                // the cut has been delivered
+                tokio::time::sleep(std::time::Duration::from_secs(45)).await;
+                counters.bump(if cut > 0 && cut < script.len() { "fault_time_passes_inside_a_query" } else { "fault_time_passes" });
+                ctx.ev(13, 45_000, || "45000 ms pass".into());
             }
             if slot == 1 {
                 let consumed = c2s.lock().unwrap().n_read as usize;
@@ -806,6 +826,17 @@ impl C08 {
                             ctx.ev(8, sent as u64, || format!("client half-closes after {} bytes ({} unread by the server, server blocked in write: {})", sent, unread, blocked));
                         }
                     }
+                    A_WAIT => {
+                        // simulated time passes (nothing else happens): a
+                        // connection's answers must not depend on WHEN the
+                        // bytes arrive either
+                        let d = [1u64, 1_000, 29_000, 31_000, 61_000, 600_000, 3_600_000, 86_400_000][ctx.choose(8) as usize];
+                        let (consumed, _) = { let p = c2s.lock().unwrap(); (p.n_read as usize, 0) };
+                        let off = unit_offset(&units, consumed);
+                        tokio::time::sleep(std::time::Duration::from_millis(d)).await;
+                        counters.bump(if off > 0 { "fault_time_passes_inside_a_query" } else { "fault_time_passes" });
+                        ctx.ev(13, d, || format!("{} ms pass (server is {} bytes into the current unit)", d, off));
+                    }
                     _ => unreachable!(),
                 }
             }
@@ -836,6 +867,7 @@ impl C08 {
             } else {
                 quiet = 0;
                 rounds = 0; // the cap is on rounds without any progress
+
             }
             if quiet >= 3 {
                 if cfg.eof_at_end && !closed {
@@ -909,7 +941,7 @@ impl C08 {
         ctx.ev(9, pdus.len() as u64, || {
             format!("server output: {}", pdus.iter().map(|p| wire::describe(&p.1)).collect::<Vec<_>>().join(", "))
         });
-        out.sim_ms = 0;
+        out.sim_ms = (tokio::time::Instant::now() - run_start).as_millis() as u64;
         let odd_version_notifies = std::cell::Cell::new(0u64);
         let reordered_responses = std::cell::Cell::new(0u64);
         let never_ready_seen = calls.iter().any(|c| matches!(c.kind, CallKind::Ready(false)));
@@ -1238,7 +1270,8 @@ impl Scenario for C08 {
 
     fn sweep_len(&self, _tier: Tier) -> u64 {
         // version(3) x cut(13) x query kind(2) x extra yields(3) x notify slot(3)
-        3 * 13 * 2 * 3 * 3
+        // x (no time passes / 45 s pass after the cut)
+        3 * 13 * 2 * 3 * 3 * 2
     }
 
     fn random_runs(&self, tier: Tier) -> u64 {
